@@ -92,4 +92,12 @@ launchpad DAO (`transfer_funds_to_launchpad_dao`). Which branch is taken depends
 def creationFeeMsgs (self : Addr) (feeDenom fee : Nat) (funds : List Coin) : Except Err (List Msg) :=
   if feeDenom = NATIVE then checkedFairBurn funds self fee none else transferFundsToLaunchpadDao funds fee feeDenom
 
+/-- whitelist fees (plain, flex, tiered, tiered-flex): 100 STARS per STARTED thousand of the member limit at creation, and per
+newly started thousand on `IncreaseMemberLimit`; the whole fee is fair-burned on behalf of the whitelist contract. `per1000` is the
+crate's `PRICE_PER_1000_MEMBERS`. -/
+def wlTiers (memberLimit : Nat) : Nat := (memberLimit + 999) / 1000
+def wlCreationFee (per1000 memberLimit : Nat) : Nat := wlTiers memberLimit * per1000
+def wlUpgradeFee (per1000 oldLimit newLimit : Nat) : Nat := (wlTiers newLimit - wlTiers oldLimit) * per1000
+def wlFeeMsgs (self : Addr) (fee : Nat) : List Msg := if fee = 0 then [] else fairBurn self fee none
+
 end LP.Sg1
